@@ -12,6 +12,8 @@ const KINDS: [JoinKind; 4] = [JoinKind::Inner, JoinKind::Left, JoinKind::Right, 
 
 pub fn run(cx: &mut Ctx) {
     let o = CheckOpts { par_vs_seq: true, vs_reference: true };
+    // a legal `Hash` far coarser than `Eq` on the join key type
+    { let n = cx.budget(80, 800); crate::pipe::coarse_hash_cases(cx, n, &o); }
     // exhaustive: all left/right inputs of <= 3 (quick 2) rows over 2 keys x 4 kinds x seq + par 1..3
     let maxlen = size_for(cx, 2, 3);
     let mut inputs: Vec<Vec<V>> = vec![vec![]];
